@@ -52,9 +52,9 @@ Ltac step_cases H :=
 
 Ltac simp :=
   unfold get_slot, get_h, put_slot, put_h, upd_thread, set_threads, set_handles, set_slots, set_alloc, set_vsize,
-         set_gver, set_cell, set_freed, set_uaf, set_rwl, finish, goto, with_retired,
-         h_bind, h_unbind, h_give, h_enter, h_leave, h_hold in *;
-  cbn [tl ext gver cell nobj freed uaf rwl slots vsize anext afree handles threads
+         set_gver, set_cell, set_freed, set_uaf, finish, goto, with_retired,
+         h_bind, h_unbind, h_drop, h_give, h_enter, h_leave, h_hold in *;
+  cbn [tl ext gver cell nobj freed uaf slots vsize anext afree handles threads
        prog opi tpc results retired ver lt hidx howner hdepth hheld] in *.
 
 Ltac gs1 :=
@@ -85,7 +85,7 @@ Proof. intros s t h H. unfold inside in H. apply andb_true_iff in H. destruct H 
 (* A: allocator, handles, ownership                                                          *)
 (* ======================================================================================== *)
 Definition pc_bound (p : pc) : option (nat * nat) :=
-  match p with LkLoad h i | LkStore h i _ | LkFence h i | UlStore h i => Some (h, i) | _ => None end.
+  match p with LkLoad h i | LkStore h i _ | LkFence h i | UlStore h i | RlStore h i | RlFree h i => Some (h, i) | _ => None end.
 
 Record InvA (s : st) : Prop := {
   a_inj : forall h h' i, hidx (get_h s h) = Some i -> hidx (get_h s h') = Some i -> h = h';
